@@ -1,9 +1,9 @@
-(* NEEDS: Mem/PropList.vo Mem/ParamSlots.vo Mem/AddArrays.vo Mem/DataAlloc.vo *)
+(* NEEDS: Mem/PropList.vo Mem/ParamSlots.vo Mem/AddArrays.vo Mem/DataAlloc.vo Mem/HashTab.vo *)
 (* Extraction of the executable memory models (C03 / C12).  Only ExtrOcamlBasic's directives. *)
 Require Extraction.
 Require Import ExtrOcamlBasic.
 Require Import List ZArith.
-Require Import LV.Mem.Alloc LV.Mem.PropList LV.Mem.ParamSlots LV.Mem.AddArrays LV.Mem.DataAlloc.
+Require Import LV.Mem.Alloc LV.Mem.PropList LV.Mem.ParamSlots LV.Mem.AddArrays LV.Mem.DataAlloc LV.Mem.HashTab.
 Extraction Language OCaml.
 Set Extraction KeepSingleton.
 Extraction "models_mem.ml"
@@ -11,4 +11,6 @@ Extraction "models_mem.ml"
   lnew lstep lfree items
   pempty pstep teardown slots
   add_arrays mkAdd
-  dnew resize dfree.
+  dnew resize dfree
+  ph_init phstep table_free hblk hcount hbuckets nkey
+  map_new mstep map_free mblk mtab morder.
